@@ -400,6 +400,15 @@ func c09Gen(tier string, rng *rand.Rand, emit func(interface{})) {
 				n = rng.Intn(41)
 			}
 			xs = c09Positive(rng, n)
+			// a single zero among positive values (GeoMean must be NaN wherever it stands; a
+			// zero in the LAST position is the only one a `x < 0` test would let through as 0)
+			if n > 0 && rng.Intn(4) == 0 {
+				k := n - 1
+				if rng.Intn(2) == 0 {
+					k = rng.Intn(n)
+				}
+				xs[k] = 0
+			}
 		default:
 			xs = c09Values(rng, n)
 		}
@@ -459,6 +468,9 @@ func c09Gen(tier string, rng *rand.Rand, emit func(interface{})) {
 		{Kind: 0, Xs: []F64{4}, Ws: []F64{0}, HasW: true},
 		{Kind: 0, Xs: []F64{2, 2, 2, 2}},
 		{Kind: 0, Xs: []F64{1, 2, 0, 4}},
+		{Kind: 0, Xs: []F64{1, 2, 4, 0}},
+		{Kind: 0, Xs: []F64{0}},
+		{Kind: 0, Xs: []F64{3, 0}},
 		{Kind: 0, Xs: []F64{1, 2, -3, 4}},
 		{Kind: 0, Xs: []F64{1, 2, 3}, Ws: []F64{0, 0, 0}, HasW: true},
 		{Kind: 0, Xs: []F64{1, 2, 3}, Ws: []F64{0, 0, 0}, HasW: true, Sorted: true},
